@@ -136,6 +136,12 @@ def _async_wait(exp, dt):
     CLOCK.now += dt
 
 
+def where_text(a):
+    """the `where` argument for an address tuple: the zone index goes into the text"""
+    t = a[3].decode("latin-1")
+    return t + "%" + str(a[2][2]) if len(a[2]) == 3 and a[2][2] else t
+
+
 def addr_tuple(a):
     return (a[3].decode("latin-1"), *a[2])
 
@@ -802,6 +808,11 @@ def gen_udp_script(ctx, rng, nmax=8):
     port = rng.choice([53, 5353])
     dest = mk_addr(dest_text, port, 0, 0)
     good_from = [mk_addr(t, port) for t in (["2001:db8::53", "2001:DB8:0:0:0:0:0:53"] if v6 else ["10.0.0.53"])]
+    scoped = v6 and dest_text.startswith("2001") and rng.random() < 0.25
+    if scoped:
+        # link-local destination with a zone index: udp() is called with "fe80::1%3"
+        dest = mk_addr("fe80::1", port, 0, 3)
+        good_from = [mk_addr("fe80::1", port, 0, 3), mk_addr("FE80:0::1", port, 0, 3)]
     if dest_text in ("224.0.0.251", "ff02::fb"):
         good_from = [mk_addr("2001:db8::99" if v6 else "10.9.9.9", port)]
     bad_from = (
@@ -809,6 +820,8 @@ def gen_udp_script(ctx, rng, nmax=8):
         if v6
         else [mk_addr("10.0.0.54", port), mk_addr("10.0.0.53", port + 1), mk_addr("2001:db8::53", port), mk_addr("bogus", port)]
     )
+    if scoped:
+        bad_from = [mk_addr("fe80::1", port, 0, 0), mk_addr("fe80::1", port, 0, 4), mk_addr("fe80::2", port, 0, 3), mk_addr("fe80::1", port, 1, 3)]
     evs = []
     tab = {}
     n = rng.choice([0, 1, 1, 1, 2, 2, 3, 3, 4, 5, 6, nmax])
@@ -914,6 +927,21 @@ def cases(ctx):
                 yield "net_read", [6, stream, evs2, exp, 0, counts]
     ctx.notes["exhaustive"] = True
     ctx.notes["exhaustive_scope"] = f"all {total} chunkings of every stream length 0..{nmax} for _net_read; all chunkings of lengths 0..{ctx.n(6, 10)} for _net_write"
+    # ---- _net_read / _net_write: every script of length <= L over a small alphabet of socket events
+    L = ctx.n(3, 4)
+    ralpha = [[0, 1], [0, 2], [0, 9], [1, 1], [1, None], [2]]
+    walpha = [[0, 0], [0, 1], [0, 2], [0, 9], [1, 1], [1, None]]
+    nexh = 0
+    for ln in range(0, L + 1):
+        for evs in itertools.product(ralpha, repeat=ln):
+            for exp in (None, 2):
+                nexh += 1
+                yield "net_read_script_exh", [6, b"\x01\x02\x03", list(evs), exp, 0, [2, 1]]
+        for evs in itertools.product(walpha, repeat=ln):
+            for exp in (None, 2):
+                nexh += 1
+                yield "net_write_script_exh", [7, b"\x01\x02\x03", list(evs), exp, 0]
+    ctx.notes["exhaustive_stream_scripts"] = f"all {nexh} read/write scripts of length <= {L} over 6-event alphabets (chunks of 0/1/2/9, would-block 1 / forever, EOF) with and without a deadline"
     # ---- _net_write: exhaustive chunkings
     for n in range(0, ctx.n(6, 10) + 1):
         data = bytes(rng.randrange(256) for _ in range(n))
@@ -1104,7 +1132,8 @@ def impl1(case):
     if op == 3:
         _, pabs, it, rot, wire = case
         try:
-            m = dns.message.from_wire(wire, ignore_trailing=bool(it), raise_on_truncation=bool(rot))
+            # one_rr_per_rrset must not influence the outcome: alternate it
+            m = dns.message.from_wire(wire, ignore_trailing=bool(it), raise_on_truncation=bool(rot), one_rr_per_rrset=bool(len(wire) % 2))
             return [0, abs_of_message(m)]
         except dns.message.Truncated as t:
             return [1, abs_of_message(t.message())]
@@ -1134,7 +1163,7 @@ def impl1(case):
         CLOCK.now = now
         sock = (USock if fl == 0 else AUSock)(af, sevs, evs)
         qm = message_of_abs(q)
-        text, port = where[3].decode("latin-1"), where[2][0]
+        text, port = where_text(where), where[2][0]
         kw = dict(timeout=timeout, port=port, ignore_unexpected=bool(o[0]), one_rr_per_rrset=bool(o[1]),
                   ignore_trailing=bool(o[2]), raise_on_truncation=bool(o[3]), sock=sock, ignore_errors=bool(o[4]))
         res, err = _call(fl, lambda: dns.query.udp(qm, text, **kw), lambda: dns.asyncquery.udp(qm, text, **kw))
@@ -1215,7 +1244,7 @@ def impl1(case):
         usock = (USock if fl == 0 else AUSock)(af, [], evs)
         tsock = (TSock if fl == 0 else ATSock)(stream_of(stream), revs, wevs)
         qm = message_of_abs(q)
-        text, port = where[3].decode("latin-1"), where[2][0]
+        text, port = where_text(where), where[2][0]
         pre = (qm, text, timeout, port, None, 0, bool(o[0]), bool(o[1]), bool(o[2]), usock, tsock)
         res, err = _call(
             fl,
